@@ -23,10 +23,10 @@ import (
 // so the return data of the top-level call is exactly the set K the EVM kept.
 
 type PAct struct {
-	K     string   `json:"k"`            // pre | child | sstore
-	Call  string   `json:"c,omitempty"`  // call (default) | static | delegate | callcode
-	T     string   `json:"t,omitempty"`  // staking | crosschain | token:<SYMBOL> | wfx | <placeholder/address>
-	M     string   `json:"m,omitempty"`  // method name
+	K     string   `json:"k"`           // pre | child | sstore
+	Call  string   `json:"c,omitempty"` // call (default) | static | delegate | callcode
+	T     string   `json:"t,omitempty"` // staking | crosschain | token:<SYMBOL> | wfx | <placeholder/address>
+	M     string   `json:"m,omitempty"` // method name
 	Args  []string `json:"args,omitempty"`
 	Value string   `json:"v,omitempty"`
 	Gas   uint64   `json:"g,omitempty"`  // stipend, 0 = all remaining gas
